@@ -4,6 +4,7 @@
    predicates, the unbounded once / historically / eventually / always loops, and the
    unbounded since / until (since_operation / until_operation: the operands merged into
    pairs, then the segment-wise recursion result_i = max(min(o1,o2), min(o1, result_{i-1}))).
+   The visitor itself (deval) is in DenseVisitor.v, after the bounded operators of DenseWin.v.
    A signal is represented by its finite samples; the sample at +inf that a constant
    carries ([[0,c],[inf,c]]) is the implicit extension of DenseMerge.extend. *)
 From Coq Require Import List Bool Arith ZArith Lia.
@@ -94,29 +95,5 @@ Definition pred_of_diff (c : cmp) (d : V) : V :=
   end.
 
 Definition obind {A B} (x : option A) (f : A -> option B) : option B := match x with Some a => f a | None => None end.
-
-(* None = an exception (operator outside the fragment modelled here, or 'Unexpected case in the intersection') *)
-Fixpoint deval (p : formula) (W : list dsig) {struct p} : option dsig :=
-  let bin f a b := obind (deval a W) (fun x => obind (deval b W) (fun y => isect f x y)) in
-  match p with
-  | Var x => Some (nth x W [])
-  | Const c => Some [(0, c)]
-  | A1 o f => option_map (dmap (a1 AR o)) (deval f W)
-  | Not f => option_map (dmap neg) (deval f W)
-  | A2 o f g => bin (a2 AR o) f g
-  | Pred c f g => option_map (fun d => dedup (dmap (pred_of_diff c) d)) (bin (a2 AR Sub) f g)
-  | And f g => bin vmin f g
-  | Or f g => bin vmax f g
-  | Implies f g => bin (fun l r => vmax (neg l) r) f g
-  | Iff f g => bin (fun l r => neg (a1 AR Abs (a2 AR Sub l r))) f g
-  | Xor f g => bin (fun l r => a1 AR Abs (a2 AR Sub l r)) f g
-  | Once f => option_map once_op (deval f W)
-  | Hist f => option_map hist_op (deval f W)
-  | Ev f => option_map ev_op (deval f W)
-  | Alw f => option_map alw_op (deval f W)
-  | Since f g => obind (deval f W) (fun x => obind (deval g W) (fun y => since_op x y))
-  | Until f g => obind (deval f W) (fun x => obind (deval g W) (fun y => until_op x y))
-  | _ => None
-  end.
 
 End DenseEval.
